@@ -26,4 +26,17 @@ claimed = {c['property_id'] for c in m['checks']}
 na = {n['property_id'] for n in m.get('not_applicable', [])}
 if claimed | na != ids or claimed & na:
     ok = False; print('coverage of ids wrong: missing', ids - claimed - na, 'both', claimed & na)
+# the deepening baseline must describe /repo as committed (tools/repo_baseline.py after every fix: commit)
+import subprocess, os
+sys.path.insert(0, '/verif/harness')
+try:
+    import run_check
+    ch = run_check.changed_files('/repo')
+    dirty = subprocess.run(['git', '-C', '/repo', 'status', '--porcelain', '--untracked-files=no'], stdout=subprocess.PIPE, text=True).stdout.strip()
+    if ch and not dirty:
+        ok = False; print('harness/repo_baseline.json is stale: run tools/repo_baseline.py (differs:', ch[:5], ')')
+    else:
+        print('repo baseline ok' if not ch else 'repo working tree is modified: %s' % ch[:5])
+except Exception as e:
+    print('repo baseline not checked:', repr(e))
 sys.exit(0 if ok else 1)
